@@ -933,6 +933,21 @@ func c13Run(c *core.Ctx) *core.Result {
 			e.Perm = e.Perm&07000 | core.Pick(R, []uint32{0600, 0644, 0000, 0400, 0660})
 		}
 	}
+	// an access ACL on a file or directory (the attribute that holds it
+	// rewrites the permission bits when it is set): with a requested mode the
+	// copy carries that mode, not what the source's ACL says
+	if ar := core.NewRand(core.Mix(c.Seed, "C13-acl", c.Index)); ar.P(1, 12) {
+		for i := range t.Entries {
+			e := &t.Entries[i]
+			if (e.Type == tree.File || e.Type == tree.Dir) && e.LinkTo == "" && t.GroupOf(e.Path) == "" && ar.P(1, 3) {
+				if e.Xattrs == nil {
+					e.Xattrs = map[string][]byte{}
+				}
+				e.Xattrs["system.posix_acl_access"] = c13ACL(e.Perm, uint32(1000+ar.Intn(3)), uint16(ar.Intn(8)))
+				r.Count("source_entries_with_an_access_acl", 1)
+			}
+		}
+	}
 	// the generator's symlink targets rarely resolve: add a few that do
 	// (absolute = scoped to the source root, or relative to the link's parent)
 	if len(t.Entries) > 0 && R.P(2, 3) {
@@ -1096,7 +1111,7 @@ func c13Run(c *core.Ctx) *core.Result {
 		}
 	}
 	srcDir := filepath.Join(c.Dir, "src")
-	dstDir := filepath.Join(c.Dir, "dst")
+	dstDir := filepath.Join(c.Dir, core.Pick(core.NewRand(core.Mix(c.Seed, "C13-root-names", c.Index)), []string{"dst", "src-dst"}))
 	os.Mkdir(srcDir, 0755)
 	if xfault {
 		d, err := os.MkdirTemp(xfBase, fmt.Sprintf("verif-c13-%d-", os.Getpid()))
@@ -1391,6 +1406,13 @@ func c13Run(c *core.Ctx) *core.Result {
 	}
 
 	// ---- option overrides on the expectation
+	if p.Mode != nil || p.ModeStr != "" {
+		// the access ACL of the source is a statement about permissions: a
+		// requested mode replaces it
+		for i := range exp.Entries {
+			delete(exp.Entries[i].Xattrs, "system.posix_acl_access")
+		}
+	}
 	gi := got.Index()
 	if p.ModeStr != "" {
 		seen := map[modeKey]bool{}
@@ -1767,3 +1789,18 @@ func c13Run(c *core.Ctx) *core.Result {
 
 // src9Free: the names of the mount points are not taken.
 func src9Free(t *tree.Tree) bool { return t.Get("zm1") == nil && t.Get("zm2") == nil }
+
+// c13ACL encodes an access ACL (posix_acl_xattr, version 2) with the owner and
+// other classes taken from perm, one named user and a mask.
+func c13ACL(perm uint32, uid uint32, userPerm uint16) []byte {
+	b := []byte{2, 0, 0, 0}
+	ent := func(tag, p uint16, id uint32) {
+		b = append(b, byte(tag), byte(tag>>8), byte(p), byte(p>>8), byte(id), byte(id>>8), byte(id>>16), byte(id>>24))
+	}
+	ent(0x01, uint16(perm>>6&7), 0xffffffff) // ACL_USER_OBJ
+	ent(0x02, userPerm, uid)                 // ACL_USER
+	ent(0x04, uint16(perm>>3&7), 0xffffffff) // ACL_GROUP_OBJ
+	ent(0x10, 7, 0xffffffff)                 // ACL_MASK
+	ent(0x20, uint16(perm&7), 0xffffffff)    // ACL_OTHER
+	return b
+}
